@@ -4,8 +4,8 @@
    arbitrary pure filter; PureCb covers Method::Empty, ForEach(recorder) and Filter(pure f).
    The generic theorems are stated for every worklist kind k <> KDfs (bfs and both pfs modes); the queue
    hypothesis of coq/proofs/Worklist.v is discharged by StdHeap.stdheap_qspec in SearchGlue.v. *)
-From Gdsl.Model Require Import Spec Callback.
-From Gdsl.Proofs Require Import Worklist Bfs SearchGlue.
+From Gdsl.Model Require Import Spec Callback PathApi.
+From Gdsl.Proofs Require Import Worklist Bfs SearchGlue PathApiProof.
 
 (* a returned path starts at the root, ends at the node carrying the target key, is made of accepted stored edges (with their stored values) joined end to start *)
 Theorem c04_path_sound :
@@ -127,6 +127,24 @@ Theorem c04_no_panic :
        k <> KDfs -> snd (search_path keqb cb vleb k d fuel h c0 root t cyc) <> RPanic E.
 Proof. exact wlq_no_panic. Qed.
 Print Assumptions c04_no_panic.
+
+(* Path::iter_nodes / to_vec_nodes (a position-walking iterator) yields the source of the first edge followed by every edge's target *)
+Theorem c04_path_iter_nodes :
+  forall (E : Type) (p : list (edge E)), p_iter_nodes p = path_nodes p.
+Proof. exact p_iter_nodes_spec. Qed.
+Print Assumptions c04_path_iter_nodes.
+
+(* Path::len is the number of nodes of a non-empty path *)
+Theorem c04_path_len :
+  forall (E : Type) (p : list (edge E)), p <> [] -> p_len p = length (p_iter_nodes p).
+Proof. exact p_len_counts_nodes. Qed.
+Print Assumptions c04_path_len.
+
+(* Path::last_node is the target of the last edge (what pfs search() returns) *)
+Theorem c04_path_last_node :
+  forall (E : Type) (p : list (edge E)) (e : edge E), p_last_node (p ++ [e]) = Some (edst e).
+Proof. exact p_last_node_is_end. Qed.
+Print Assumptions c04_path_last_node.
 
 
 Example c04_nonvacuous :
